@@ -58,10 +58,30 @@ def direct(prop, ops):
                 if "!lenbad" in l:
                     out.append(Finding(prop, i, sig(i, "lenbad"), l))
     if prop in ("C01", "C03"):
+        # a world-level `spawn` that ends in a (documented) panic - a handler of its Spawn event panicking - never
+        # returns the id, so at most one live entity per such operation is unknown to the harness; it legitimately
+        # answers to an id one generation off a known one
+        unknown_ok = 0
         for i, (op, obs) in enumerate(ops):
+            if op == "spawn" and any(l.startswith("panic ") for l in obs):
+                unknown_ok += 1
             for l in lines_of(obs, "pr "):
-                if l[3:].strip() not in ("0", ""):
-                    out.append(Finding(prop, i, sig(i, "hand-made-id-valid"), f"{l[3:]} hand-made entity ids (neighbouring generations of issued ids) are valid"))
+                try:
+                    n = int(l[3:].strip() or "0")
+                except ValueError:
+                    continue
+                if n > unknown_ok:
+                    out.append(Finding(prop, i, sig(i, "hand-made-id-valid"), f"{n} hand-made entity ids (neighbouring generations of issued ids) are valid"
+                                       + (f" ({unknown_ok} explained by spawns that panicked before returning their id)" if unknown_ok else "")))
+            # an entity nobody was told about: more live entities than ids handed out (returned, announced or reserved)
+            st = lines_of(obs, "st ")
+            if st and "?" not in st[0]:
+                m = re.match(r"st n=(\d+)", st[0])
+                if m:
+                    live_known = len(re.findall(r"#\d+=\{", st[0]))
+                    if int(m.group(1)) > live_known + unknown_ok:
+                        out.append(Finding(prop, i, sig(i, "phantom-entity"), f"{m.group(1)} live entities but only {live_known} live ids were ever handed out"
+                                           + (f" (+{unknown_ok} spawns that panicked before returning)" if unknown_ok else "") + f": {st[0][:120]}"))
     if prop == "C03":
         seen = {}
         for i, (op, obs) in enumerate(ops):
